@@ -57,9 +57,38 @@ def nontrivial(case, impl, model, oracle):
     return "err " in impl and ("[]" in impl or "+" in impl)
 
 
+_rset = re.compile(r" R\{([^}]*)\}")
+
+
+def _n_rdatas(step):
+    m = _rset.search(step)
+    return sum(x.rsplit(":", 1)[-1].count("+") + 1 for x in m.group(1).split(";")) if m and m.group(1) else 0
+
+
+def ci_absorbed(case, impl):
+    """number of ACCEPTED adds that did not grow any RRset although no octet-identical RDATA had been added to that
+    (owner, type) before: the record was absorbed by Rdata::equals on a differently spelled RDATA"""
+    f = case.split()
+    if len(f) < 4 or f[3] == "-":
+        return 0
+    steps = impl.split(" / ")
+    n, prev, seen = 0, _n_rdatas(steps[0]), {}
+    for rec, st in zip(f[3].split(";"), steps[1:]):
+        o, ty, _c, _ttl, rd = rec.split(",")
+        cur = _n_rdatas(st)
+        if st.startswith("ok"):
+            key = (zg.lower_names("~" + o), ty)
+            if cur == prev and rd not in seen.get(key, ()):
+                n += 1
+            seen.setdefault(key, set()).add(rd)
+        prev = cur
+    return n
+
+
 def classify(case, impl, model, oracle):
     ks = sorted(set(re.findall(r"err (\w+)", impl)))
-    return ("panic " if "panic" in impl else "") + ("ok+" + "+".join(ks) if ks else "ok-only")
+    ci = " ci-dedup" if ci_absorbed(case, impl) else ""
+    return ("panic " if "panic" in impl else "") + ("ok+" + "+".join(ks) if ks else "ok-only") + ci
 
 
 def gen_rdset(rng, tier):
@@ -101,7 +130,8 @@ def classify_rdset(case, impl, model, oracle):
         return impl
     given = case.split()[3].split(",")
     kept = impl[3:].split("+")
-    return f"kept{len(kept)}of{len(given)}"
+    # "ci": fewer members than DISTINCT octet strings given, i.e. Rdata::equals identified differently spelled RDATA
+    return f"kept{len(kept)}of{len(given)}" + (" ci" if len(kept) < len(set(given)) else "")
 
 
 RDSET_RULE = ("RdataSetOwned::from_iter on 1..8 RDATAs drawn with repetition from a pool of <=4..6: 40% opaque (lengths 0,1,2,4,16,255,256,257,300,"
